@@ -153,6 +153,18 @@ def stepM (st : MState) (step : List String) : MState × String :=
      | _, _ => (st, "badstep"))
   | ["w", letters] => (st, walkM ch letters)
   | ["clone"] => ({ st with other := some ch }, "ok")
+  | "alt" :: rawToks =>
+    (match parseRaw rawToks with
+     | some (raw, []) =>
+       (match Impl.validate raw with
+        | .ok b0 =>
+          let (ch', fail) := (Impl.Chain.new b0).pushUciList ch.uciList
+          (match fail with
+           | none => ({ st with other := some ch' }, "ok")
+           | some (pos, .err _) => (st, s!"err@{pos}")
+           | some (_, _) => (st, "panic"))
+        | _ => (st, "invalid"))
+     | _ => (st, "badstep"))
   | ["swap"] =>
     (match st.other with
      | some o => ({ cur := o, other := some ch }, "ok")
@@ -214,6 +226,15 @@ def pushS (st : SState) (d : List Spec.Move) (impl : String) (allowParseErr : Bo
   | _ =>
     if impl.startsWith "err" || (allowParseErr && impl == "parse-err") then (st, ok)
     else (st, bad s!"push accepted although the value denotes {d.length} legal moves")
+
+/-- replay UCI texts from another start: the moves they denote there, or the index of the first that denotes none -/
+def altReplay (p : Spec.Pos) (ts : List (List Nat)) (acc : List Spec.Move) (k : Nat) : Except Nat (List Spec.Move) :=
+  match ts with
+  | [] => .ok acc
+  | t :: rest =>
+    match denotedUci p t true with
+    | [m] => altReplay (Spec.apply p m) rest (acc ++ [m]) (k + 1)
+    | _ => .error k
 
 def walkS (c : SChain) (letters : String) : String :=
   let n := c.moves.length
@@ -324,6 +345,16 @@ def stepS (st : SState) (step : List String) (impl : String) : SState × String 
      | _, _ => (st, "-"))
   | ["w", letters] => (st, expect (walkS ch letters) impl)
   | ["clone"] => ({ st with other := some ch }, expect "ok" impl)
+  | "alt" :: rawToks =>
+    (match parseRaw rawToks with
+     | some (raw, []) =>
+       if !Spec.ValidRaw (abs raw) then (st, expect "invalid" impl) else
+       let start := Spec.normalise (abs raw)
+       let texts := ch.moves.map Spec.Uci.write
+       (match altReplay start texts [] 0 with
+        | .ok ms => ({ st with other := some { start := start, moves := ms, outcome := none } }, expect "ok" impl)
+        | .error k => (st, expect s!"err@{k}" impl))
+     | _ => (st, "-"))
   | ["swap"] =>
     (match st.other with
      | some o => ({ cur := o, other := some ch }, expect "ok" impl)
